@@ -46,21 +46,57 @@ def natl(xs):
 
 
 # ---------------------------------------------------------------- generator
-def gen_mesh(rng, cid, misaligned=False, malformed=False):
+def almost_sorted(rng, ids):
+    """storage orders that look sorted: reversed, two neighbours swapped, one id moved,
+    ends in place + interior shuffled, fully shuffled, sorted"""
+    n = len(ids)
+    how = rng.choice(['sorted', 'reversed', 'shuffled', 'shuffled', 'swap2', 'move1', 'interior'])
+    ids = sorted(ids)
+    if how == 'reversed':
+        ids = ids[::-1]
+    elif how == 'shuffled':
+        rng.shuffle(ids)
+    elif how == 'swap2' and n > 1:
+        k = rng.randrange(n - 1)
+        ids[k], ids[k + 1] = ids[k + 1], ids[k]
+    elif how == 'move1' and n > 1:
+        ids.insert(rng.randrange(n), ids.pop(rng.randrange(n)))
+    elif how == 'interior' and n > 3:
+        mid = ids[1:-1]
+        rng.shuffle(mid)
+        ids = [ids[0]] + mid + [ids[-1]]
+    return ids, how
+
+
+def gen_mesh(rng, cid, misaligned=False, malformed=False, only_type=None):
     types = rng.sample(list(ARITY), rng.randint(1, 8))
     if rng.random() < 0.25:
         types = list(ARITY)
+    if only_type:
+        types = [only_type]
     n = rng.randint(max(ARITY[t] for t in types), 24)
-    mode = rng.choice(['contig', 'sparse', 'sparse', 'large'])
+    mode = rng.choice(['contig', 'offset', 'sparse', 'sparse', 'large', 'huge'])
     if mode == 'contig':
         ids = list(range(1, n + 1))
+    elif mode == 'offset':
+        a0 = rng.randint(100, 10 ** 6)
+        ids = list(range(a0, a0 + n))
     elif mode == 'sparse':
         ids = rng.sample(range(1, 10 * n + 5), n)
-    else:
+    elif mode == 'large':
         ids = rng.sample(range(2 ** 31, 2 ** 31 + 50 * n), n - 1) + [rng.randint(1, 9)]
-    if rng.random() < 0.85:
-        rng.shuffle(ids)
-    pts = [[Fr(rng.randint(-64, 64), rng.choice([1, 2, 4, 8])) for _ in range(3)] for _ in range(n)]
+    else:
+        ids = rng.sample(range(2 ** 53 - 40 * n, 2 ** 53 + 40 * n), n)
+    ids, order_how = almost_sorted(rng, ids)
+    pdt = rng.choice(['float64', 'float64', 'float64', 'float32', 'int64', 'int32'])
+    if pdt.startswith('int'):
+        pts = [[Fr(rng.randint(-64, 64)) for _ in range(3)] for _ in range(n)]
+    elif pdt == 'float32' or rng.random() < 0.6:
+        pts = [[Fr(rng.randint(-64, 64), rng.choice([1, 2, 4, 8])) for _ in range(3)] for _ in range(n)]
+    else:       # decimal length scale, far from the origin: not dyadic (exact value of the double)
+        sc = Fr(rng.choice(['0.0001', '0.001', '0.3', '1', '1000']))
+        off = Fr(rng.choice(['0', '100000.1', '12345678.9']))
+        pts = [[Fr(float((Fr(rng.randint(-640, 640), 10) + off) * sc)) for _ in range(3)] for _ in range(n)]
     blocks = []
     eids = rng.sample(range(1, 500), 40)
     for t in types:
@@ -72,10 +108,12 @@ def gen_mesh(rng, cid, misaligned=False, malformed=False):
         b = rng.choice(blocks)
         b['conn'][rng.randrange(len(b['conn']))][rng.randrange(ARITY[b['type']])] = max(ids) + 7
     variables = []
-    names = ['zz_a', 'zz_b', 'zz_c', 'zz_d', 'zz_e', 'zz_f', 'zz_g']
+    # names that are prefixes / case variants of one another
+    names = ['zz_a', 'zz_A', 'zz_a_b', 'zz_a_', 'zz', 'ZZ_a', 'zz_ab']
     rng.shuffle(names)
     for name in names[:rng.randint(0, 4)]:
-        shape = rng.choice([(n,), (n, 1), (n, 2), (n, 3), (n, 6), (n, 3, 3), (n, 4)])
+        shape = rng.choice([(n,), (n, 1), (n, 2), (n, 3), (n, 6), (n, 3, 3), (n, 4), (n, 12)])
+        vdt = rng.choice(['float64', 'float64', 'float32', 'int64', 'int32'])
         size = 1
         for s in shape:
             size *= s
@@ -84,8 +122,9 @@ def gen_mesh(rng, cid, misaligned=False, malformed=False):
             vids = list(ids)
             while vids == ids and n > 1:
                 rng.shuffle(vids)
-        variables.append({'name': name, 'ids': vids, 'shape': list(shape),
-                          'flat': [pair(Fr(rng.randint(-999, 999), rng.choice([1, 2, 4])))
+        variables.append({'name': name, 'ids': vids, 'shape': list(shape), 'dtype': vdt,
+                          'flat': [pair(Fr(rng.randint(-999, 999), 1 if vdt.startswith('int')
+                                           else rng.choice([1, 2, 4])))
                                    for _ in range(size)]})
     if misaligned and not any(len(v['shape']) < 3 for v in variables):
         vids = list(ids)
@@ -100,7 +139,27 @@ def gen_mesh(rng, cid, misaligned=False, malformed=False):
                                'how': rng.choice(['overwrite', 'setter']),
                                'flat': [pair(Fr(rng.randint(-999, 999), rng.choice([1, 2, 4])))
                                         for _ in v['flat']]})
+    then = None
+    if not malformed and rng.random() < 0.3:
+        then = {}
+        if rng.random() < 0.7:
+            then['points'] = [[pair(Fr(rng.randint(-64, 64), 4)) for _ in range(3)] for _ in range(n)]
+            then['points_how'] = rng.choice(['setter', 'inplace'])
+            if pdt.startswith('int'):
+                then['points'] = [[pair(Fr(rng.randint(-64, 64))) for _ in range(3)] for _ in range(n)]
+        if rng.random() < 0.7:
+            b = rng.choice(blocks)
+            then['conn'] = {'type': b['type'], 'how': rng.choice(['setter', 'inplace']),
+                            'conn': [rng.sample(ids, ARITY[b['type']]) for _ in b['conn']]}
+        ow2 = [{'name': v['name'], 'shape': v['shape'], 'how': rng.choice(['overwrite', 'inplace']),
+                'flat': [pair(Fr(rng.randint(-999, 999))) for _ in v['flat']]}
+               for v in variables if rng.random() < 0.5]
+        if ow2:
+            then['overwrites'] = ow2
+        if not then:
+            then = None
     return {'id': cid, 'node_ids': ids, 'points': [[pair(x) for x in p] for p in pts],
+            'points_dtype': pdt, 'order_nodes': order_how, 'then': then,
             'blocks': blocks, 'variables': variables, 'overwrites': overwrites, 'id_mode': mode,
             'stream': 'malformed' if malformed else ('misaligned' if misaligned else 'main')}
 
@@ -160,10 +219,12 @@ def oracle(c, r):
     latest = {ow['name']: ow['flat'] for ow in c.get('overwrites', [])}
     want_vars = [dict(v, flat=latest.get(v['name'], v['flat']))
                  for v in c['variables'] if len(v['shape']) < 3]
+    node_var = {'name': 'NODE', 'ids': ids, 'shape': [len(ids), 3],
+                'flat': [x for p in c['points'] for x in p]}
     names = set(r['point_data'])
     if names != {v['name'] for v in want_vars} | {'NODE'}:
         bad.append(('point-data-names', sorted(names)))
-    for v in want_vars:
+    for v in want_vars + [node_var]:
         pd = r['point_data'].get(v['name'])
         if pd is None:
             continue
@@ -181,6 +242,24 @@ def oracle(c, r):
                 break
     if r['cell_data_keys']:
         bad.append(('unexpected-cell-data', r['cell_data_keys']))
+    if c.get('then') and 'second' in r and not bad:
+        th = c['then']
+        c2 = dict(c, then=None)
+        if 'points' in th:
+            c2['points'] = th['points']
+        if 'conn' in th:
+            c2['blocks'] = [dict(b, conn=th['conn']['conn']) if b['type'] == th['conn']['type'] else b
+                            for b in c['blocks']]
+        if th.get('overwrites'):
+            c2['overwrites'] = list(c.get('overwrites', [])) + th['overwrites']
+        edited = ({'NODE'} if th.get('points_how') == 'inplace' else set()) | \
+            {ow['name'] for ow in th.get('overwrites', []) if ow.get('how') == 'inplace'}
+        for w, d in oracle(c2, r['second']):
+            if w in ('point-data-value', 'point-data-not-by-node-id') and isinstance(d, dict) \
+                    and d.get('variable') in edited:
+                bad.append(('point-data-stale-after-inplace-edit', d))
+            else:
+                bad.append(('second-export:' + w, d))
     return bad
 
 
@@ -225,7 +304,10 @@ def coq_item(c, r):
     pd = lib.coq_list(['(' + lib.coq_str(k) + ', ' +
                        lib.coq_list([qrow([frs(x) for x in row]) for row in v['rows']]) + ')'
                        for k, v in sorted(r['point_data'].items())])
-    return f"chk_vtk {coq_mesh(r['held'])} {pts} {cells} {pd}"
+    first = f"chk_vtk {coq_mesh(r['held'])} {pts} {cells} {pd}"
+    if 'second' in r:
+        return first + ' && ' + coq_item(dict(c, then=None), r['second'])
+    return first
 
 
 def run_corr(ctx, cases, res):
@@ -324,6 +406,8 @@ def main(ctx):
             c['id'] = len(cases)
             cases.append(c)
     n_main = 3000 if thorough else 150
+    for t in ARITY:                       # every element type alone (own branches of the export)
+        cases.append(gen_mesh(ctx.rng, len(cases), only_type=t))
     for _ in range(n_main):
         cases.append(gen_mesh(ctx.rng, len(cases)))
     for _ in range(60 if thorough else 10):
@@ -337,10 +421,17 @@ def main(ctx):
     res = run_impl(ctx, cases)
     n_bad = 0
     per_what = {}
+    known_whats = set()
     for c in cases:
         r = res[c['id']]
         ctx.count('stream:' + c['stream'])
         ctx.count('ids:' + c['id_mode'])
+        if 'order_nodes' in c:
+            ctx.count('node_order:' + c['order_nodes'])
+            ctx.count('points_dtype:' + c['points_dtype'])
+            ctx.count('second_export' if c.get('then') else 'single_export')
+        for v in c['variables']:
+            ctx.count('var_dtype:' + v.get('dtype', 'float64'))
         ctx.count('n_types:%d' % len(c['blocks']))
         for b in c['blocks']:
             ctx.count('type:' + b['type'])
@@ -362,7 +453,7 @@ def main(ctx):
                 r2 = run_impl(ctx, [small], tag='shrink')[0]
                 if any(w == what for w, _ in oracle(small, r2)):
                     case = public_case(small)
-            ctx.violation('impl-violation', case,
+            is_known = ctx.violation('impl-violation', case,
                           'C06 holds on this mesh (points, cell types, VTK node order as storage '
                           'positions, nodal variables attached to their nodes)',
                           {'what': what, 'detail': detail, 'impl_error': r.get('error')},
@@ -371,8 +462,13 @@ def main(ctx):
                           else 'oracle on implementation (statement of C06)',
                           found_input=True,
                           signature={'what': what, 'site': 'FEMData.to_meshio',
-                                     'stream': c['stream']},
+                                     'stream': c['stream']} if what != 'point-data-stale-after-inplace-edit'
+                          else {'what': what, 'site': 'FEMAttributes.to_meshio (attribute.loc reads the frame)',
+                                'edit': 'attribute.data[...] = v'},
                           what=f'VTK export: {what}')
+            if is_known:
+                known_whats.add(what)
+    n_bad = sum(n for w, n in per_what.items() if w not in known_whats)
     ctx.notes['search_evaluations'] = len(cases)
     ctx.notes['impl_property_failures'] = per_what
     if corr_built:
@@ -384,6 +480,8 @@ def main(ctx):
         rep = 0
         for cid in failing:
             c = cases[cid]
+            if oracle(c, res[cid]):
+                continue            # already reported with its failing input
             if rep >= 5:
                 break
             rep += 1
@@ -399,7 +497,7 @@ def main(ctx):
         ctx.violation('tie-broken', {'translator_error': ctx.notes.get('translator_error')},
                       'translator accepts the VTK export code', 'fail-closed',
                       'translator c06_tables', found_input=False, signature={'kind': 'tie-broken'})
-    if tie_ok and not proof_ok and not [w for w in per_what if w != 'point-data-not-by-node-id']:
+    if tie_ok and not proof_ok and n_bad == 0:
         badn = [o['name'] for o in ctx.obligations if not o['discharged']]
         ctx.violation('proof-broken', {'log_tail': ctx.notes.get('build_log_tail', '')[-600:]},
                       'theorems of C06/Props.v check against the regenerated gen/VtkTables.v',
